@@ -5,6 +5,9 @@
 (*                                                                         *)
 (*   Generate(v)     generate_literal: a literal of the requested type is  *)
 (*                   rendered for a value v (random or seeded)             *)
+(*   Adopt(s)        the slot holds a literal Pynguin did not render (a    *)
+(*                   seeded / parsed test case): an integer literal in any *)
+(*                   base, with or without a minus in front of it          *)
 (*   Mutate(w)       mutate_literal: the slot is re-rendered for a value w *)
 (*                   of the same type                                      *)
 (*   LocalSearch(w)  parse_literal(slot) -> perturb -> literal_to_cst      *)
@@ -70,6 +73,16 @@ Generate(v) ==
   /\ phase' = "literal" /\ req' = v.k /\ expr' = RenderL(v, D) /\ val' = v
   /\ UNCHANGED <<obs, pos, asserts, verdicts>>
 
+(* integer literals as they can be written by hand: every base for every magnitude (a decimal literal  *)
+(* beyond the digit limit is not Python), negative values with a minus in front of the literal        *)
+AdoptMagnitudes == {"i_zero", "i_one", "i_pos", "i_huge", "i_digits"}
+AdoptSyntax == LET lits == {Syn(k, c) : k \in IntSynKinds, c \in AdoptMagnitudes} \ {Syn("Int", "i_digits")}
+               IN lits \cup {Neg(x) : x \in lits}
+Adopt(s) ==
+  /\ phase = "empty"
+  /\ phase' = "literal" /\ req' = "int" /\ expr' = s /\ val' = Eval(s)
+  /\ UNCHANGED <<obs, pos, asserts, verdicts>>
+
 Mutate(w) ==
   /\ phase = "literal" /\ w.k = req
   /\ expr' = RenderL(w, D) /\ val' = w
@@ -114,6 +127,7 @@ Reset == /\ phase \in {"exported", "literal"} /\ phase' = "empty"
          /\ pos' = "-" /\ asserts' = {} /\ verdicts' = {}
 
 Next == \/ \E v \in LitUniverse : Generate(v) \/ Mutate(v) \/ LocalSearch(v)
+        \/ \E s \in AdoptSyntax : Adopt(s)
         \/ \E v \in Universe : \E p \in PosFor(v) : Return(v, p)
         \/ Execute \/ Observe \/ Export \/ Reset
 Spec == Init /\ [][Next]_vars
@@ -123,6 +137,8 @@ RenderedLiteralIsValidPython == phase = "literal" => ~HasRaise(expr) /\ Eval(exp
 EvaluatesToRequestedType     == (phase = "literal" /\ ~HasRaise(expr)) => Eval(expr).k = req
 RoundTrip                    == (phase = "literal" /\ ~HasRaise(expr)) => Same(Eval(expr), val)
 ParseBackAgrees              == (phase = "literal" /\ ~HasRaise(expr) /\ Parsed # NotParsed) => Same(Parsed, val)
+(* every integer literal, rendered or adopted, can be read by local search / delta mutation *)
+IntLiteralIsParseable        == (phase = "literal" /\ req = "int" /\ ~HasRaise(expr)) => Parsed # NotParsed
 (* ---------------- C20 ---------------- *)
 RenderNeverFails              == \A x \in verdicts : x[4] # "raise"
 AssertionHoldsOnObservedValue == \A x \in verdicts : x[4] \in {"pass", "raise"}
